@@ -1,0 +1,17 @@
+//go:build !verif
+
+// Package vhook holds the verification hooks of gnet. Without the build tag "verif"
+// every hook is an empty function that the compiler inlines away.
+package vhook
+
+// Enabled reports whether the hooks are compiled in.
+const Enabled = false
+
+// Gate marks the point right before an atomic, queue, eventfd or epoll operation.
+func Gate(site string, obj any, a int) {}
+
+// Ev records a state change of loop-owned state, after it happened.
+func Ev(site string, obj any, a, b int) {}
+
+// Sys records a system call of the I/O path: descriptor, byte count and error.
+func Sys(site string, obj any, fd, n int, err error) {}
